@@ -60,7 +60,7 @@ def generate(seed, tier):
                     'mtime': g.pick([0, 7]), 'cb': g.pick([None, None, 'count'])})
     else:
         kind = g.pick(['stat', 'list', 'recv', 'send'])
-        bad = {'stat': ['DENT', 'DATA', 'DONE', 'OKAY'], 'list': ['STAT', 'DATA', 'OKAY'], 'recv': ['DENT', 'STAT', 'OKAY'], 'send': ['DONE', 'DATA', 'STAT', 'DENT']}[kind]
+        bad = {'stat': ['DENT', 'DATA', 'DONE', 'OKAY'], 'list': ['STAT', 'DATA', 'OKAY'], 'recv': ['DENT', 'STAT', 'OKAY', 'STAT+'], 'send': ['DONE', 'DATA', 'STAT', 'DENT', 'STAT+']}[kind]
         d['bad_record'] = {kind: g.pick(bad)}
         if kind == 'stat':
             ops.append({'op': 'stat', 'path': S.add_file(g, d, 100)})
